@@ -4,7 +4,7 @@ from hypothesis import strategies as st
 
 from ..core import Clause, Discard, Violation, call, require
 from ..oracles import stft_ref
-from ..strategies import (bank_specs, build_bank, build_stft, build_window, gabor_degenerate,
+from ..strategies import (log_floor_configs, with_config, bank_specs, build_bank, build_stft, build_window, gabor_degenerate,
                           gammatone_degenerate, make_signal, signal_specs, stft_specs)
 
 PROPERTY = "C02"
@@ -154,7 +154,7 @@ def _cases(draw, rates=(1000,), max_len=64):
     sig = draw(signal_specs(st.just(n)))
     prior = draw(st.one_of(st.none(), st.none(), st.fixed_dictionaries({
         "sig": signal_specs(st.integers(0, 3 * L)), "chunked": st.booleans()})))
-    return {"comp": comp, "sig": sig, "prior": prior}
+    return {"comp": comp, "sig": sig, "prior": prior, "config": draw(log_floor_configs())}
 
 
 @st.composite
@@ -180,7 +180,7 @@ def _default_cases(draw):
 def clauses(tier):
     return [
         Clause(
-            "definition", check_definition,
+            "definition", with_config(check_definition),
             "non-trivial = at least one frame and (complex bank, or real bank with include_energy); distinct by full case",
             _cases, quick=900, thorough=40000,
         ),
